@@ -171,6 +171,12 @@ func (m *DB) Step(op *cs.Op, out *cs.Outcome) string {
 	if strings.HasPrefix(out.Err, "panic") || out.Err == "hang" {
 		return "call did not return normally: " + out.Err
 	}
+	if strings.Contains(out.Err, "Txn is too big") {
+		// badger refuses an operation that does not fit one transaction: legal, but only as a
+		// failure without any effect (the state is left as it is; the checks that look at the
+		// stored state then verify that nothing was written)
+		return ""
+	}
 	if m.Closed && op.Kind != "close" && op.Kind != "reopen" {
 		// after Close every call returns promptly with an error or a result; nothing to compare
 		return ""
